@@ -44,7 +44,7 @@ def main() -> int:
             info[j["id"]] = (label, {"shared_enum_params", "le" if le else "enum"})
             jobs.append(j)
     for k_, (label, d) in enumerate(docs.interplay_docs()):
-        if not d["components"]["schemas"] or (quick and k_ % 4 and "typed_nullable" not in label and "redeclared_required" not in label) or any(x_ in label for x_ in ("named_Union", "named_Unset")):
+        if not d["components"]["schemas"] or (quick and k_ % 4 and "typed_nullable" not in label and "redeclared_required" not in label and "single_member_union" not in label) or any(x_ in label for x_ in ("named_Union", "named_Unset")):
             continue
         j = run.job(d, want=["manifest"], plan={"fn": "c10", "args": {"seed": seed()}}, cfg={"literal_enums": k_ % 2 == 0})
         info[j["id"]] = (label, {"interplay", label.split(":")[1].rsplit("_", 1)[0]})
